@@ -6,6 +6,7 @@ import (
 
 	"github.com/atombender/go-jsonschema/pkg/mathutils"
 
+	"verif/internal/refmodel"
 	"verif/internal/space"
 )
 
@@ -182,6 +183,16 @@ func c05Cases(level int) []SCase {
 								"$defs":      J{"D": l, "DN": nl}}
 							out = append(out, SCase{ID: "C05/def/" + name, Schema: def, Cfg: baseCfg(), Axes: map[string]string{"pos": "def", "leaf": name}})
 							out = append(out, SCase{ID: "C05/root/" + name, Schema: space.Clone(l), Cfg: baseCfg(), Axes: map[string]string{"pos": "root", "leaf": name}})
+							// the same number as an optional property with a default (a valid value chosen by the reference model): the field
+							// then is not a pointer, and an absent or null value still must not be bound-checked (its zero value may violate the bounds)
+							if lm, err := refmodel.New(map[string]string{"s.json": space.Text(l)}, "s.json"); err == nil {
+								if ds := lm.Docs(1); len(ds) > 0 && lm.Valid(ds[0].V) == refmodel.Accept {
+									ld := space.Clone(l)
+									ld["default"] = ds[0].V
+									out = append(out, SCase{ID: "C05/default/" + name, Cfg: baseCfg(), Axes: map[string]string{"pos": "default", "leaf": name},
+										Schema: J{"type": "object", "properties": J{"k": J{"type": "string"}, "od": ld}}})
+								}
+							}
 							if typ == "integer" {
 								// the same integer schemas under --min-sized-ints: the option rewrites bounds while choosing the type
 								sz := baseCfg()
